@@ -424,6 +424,36 @@ class Slicer:
     APPENDERS = {'std::ffi::OsString::push', 'std::string::String::push_str', 'std::string::String::push',
                  'std::path::PathBuf::push'}
 
+    READERS = {'std::io::Read::read_to_string': 'std::fs::read_to_string', 'std::io::Read::read_to_end': 'std::fs::read'}
+
+    def _read_into(self, fn, local):
+        """`File::open(p)?.read_to_string(&mut buf)`: the buffer holds what `fs::read_to_string(p)?` returns"""
+        key = ('readinto', fn.path)
+        idx = self._cache.get(key)
+        if idx is None:
+            idx = {}
+            refs = {}
+            for b in fn.blocks:
+                for st in b['s']:
+                    if st[0] == '=' and len(st[1]) == 1 and st[2]['r'] == 'ref' and st[2].get('mut') and len(st[2]['p']) == 1:
+                        refs[st[1][0]] = st[2]['p'][0]
+            for c in fn.calls:
+                if not c.indirect and c.decl in self.READERS and len(c.args) == 2:
+                    pl = op_place(c.args[1])
+                    if pl and len(pl) == 1 and pl[0] in refs:
+                        idx.setdefault(refs[pl[0]], []).append(c)
+            self._cache[key] = idx
+        cs = idx.get(local, [])
+        if len(cs) != 1:
+            return None
+        c = cs[0]
+        recv = self.operand(fn, c.args[0])
+        for x in walk(recv):
+            if x[0] == 'call' and x[1] == 'std::fs::File::open' and x[2]:
+                # the read can fail: the buffer is meaningful only after `?` on the read — model as the unwrapped whole-file read
+                return ('unwrap', ('call', self.READERS[c.decl], (x[2][0],), (fn.path, c.bb)))
+        return None
+
     def _appends(self, fn, local):
         """values appended to `local` through `&mut local` (in reverse post-order of the call sites)"""
         key = ('appends', fn.path)
@@ -448,6 +478,9 @@ class Slicer:
     def _with_updates(self, fn, local, v, seen, d):
         """record field assignments made after the whole definition: ('updated', base, ((proj, value)...));
         a string built by pushing onto it is ('concat', (base, pushed...))"""
+        rd = self._read_into(fn, local)
+        if rd is not None:
+            return rd
         app = self._appends(fn, local)
         if app:
             fresh = v[0] == 'call' and v[1].endswith(('::new', '::with_capacity', '::default'))
